@@ -34,6 +34,9 @@ def hsteps(ctx, f, x, n, prec, **options):
     direction = options.get('direction', 0)
     workprec = (prec+2*addprec) * (n+1)
     orig = ctx.prec
+    # (a number of another context would form x + k*h at that context's
+    # precision, where h is lost)
+    x = ctx.convert(x)
     try:
         ctx.prec = workprec
         h = options.get('h')
